@@ -270,7 +270,6 @@ Definition conv_slice_elems (et : gotype) :=
     | [] => Ok []
     | x :: r =>
       match conv_to et x with
-      | Ok VNull => Panic
       | Ok x' => match go r with Ok r' => Ok (x' :: r') | Err => Err | Panic => Panic | Unk => Unk end
       | Err => Err
       | Panic => Panic
@@ -285,7 +284,7 @@ Definition conv_map_elems (et : gotype) :=
     | (k, x) :: r =>
       match conv_to et x with
       | Ok x' => match go r with
-                 | Ok r' => Ok (match x' with VNull => r' | _ => (k, x') :: r' end)
+                 | Ok r' => Ok ((k, x') :: r')
                  | Err => Err | Panic => Panic | Unk => Unk end
       | Err => Err
       | Panic => Panic
@@ -313,7 +312,6 @@ Proof. intros et v. destruct v; reflexivity. Qed.
 Lemma conv_slice_elems_cons : forall et x r,
   conv_slice_elems et (x :: r) =
   match conv_to et x with
-  | Ok VNull => Panic
   | Ok x' => match conv_slice_elems et r with Ok r' => Ok (x' :: r') | Err => Err | Panic => Panic | Unk => Unk end
   | Err => Err
   | Panic => Panic
@@ -325,7 +323,7 @@ Lemma conv_map_elems_cons : forall et k x r,
   conv_map_elems et ((k, x) :: r) =
   match conv_to et x with
   | Ok x' => match conv_map_elems et r with
-             | Ok r' => Ok (match x' with VNull => r' | _ => (k, x') :: r' end)
+             | Ok r' => Ok ((k, x') :: r')
              | Err => Err | Panic => Panic | Unk => Unk end
   | Err => Err
   | Panic => Panic
@@ -381,13 +379,48 @@ Proof.
   destruct k; try discriminate Hk; cbn [conv_to reflect_convert is_basic_number]; rewrite Hf, E; reflexivity.
 Qed.
 
-(* a number outside the target range: Go's result is implementation-defined, the model says Unk *)
+(* a number that is not finite or whose truncation is outside the target range cannot be converted:
+   the result is Err (every integer kind; the unsigned kinds accept no number at all) *)
 Lemma num_to_int_out_of_range : forall k d,
-  int_signed k = true -> is_finite d && (wrap_int k (trunc_dec d) =? trunc_dec d) = false ->
-  conv_to (TInt k) (VNum d) = Unk.
+  is_finite d && (wrap_int k (trunc_dec d) =? trunc_dec d) = false ->
+  conv_to (TInt k) (VNum d) = Err.
 Proof.
-  intros k d Hk Hf.
-  destruct k; try discriminate Hk; cbn [conv_to reflect_convert is_basic_number]; rewrite Hf; reflexivity.
+  intros k d Hf.
+  destruct k; cbn [conv_to reflect_convert is_basic_number]; try rewrite Hf; reflexivity.
+Qed.
+
+Lemma num_out_of_range_is_error : forall k d,
+  is_finite d = false \/ wrap_int k (trunc_dec d) <> trunc_dec d ->
+  conv_to (TInt k) (VNum d) = Err.
+Proof.
+  intros k d H. apply num_to_int_out_of_range. destruct H as [H|H].
+  - rewrite H. reflexivity.
+  - apply Z.eqb_neq in H. rewrite H. apply andb_false_r.
+Qed.
+
+(* the conversion of a number to a signed integer kind, completely: the truncation when the number is
+   finite and fits, Err otherwise - never Unk, never Panic *)
+Lemma num_to_int_iff : forall k d, int_signed k = true ->
+  (conv_to (TInt k) (VNum d) = Ok (VGoInt k (trunc_dec d)) <->
+     is_finite d = true /\ wrap_int k (trunc_dec d) = trunc_dec d) /\
+  (conv_to (TInt k) (VNum d) = Err <->
+     is_finite d = false \/ wrap_int k (trunc_dec d) <> trunc_dec d) /\
+  (conv_to (TInt k) (VNum d) = Ok (VGoInt k (trunc_dec d)) \/ conv_to (TInt k) (VNum d) = Err).
+Proof.
+  intros k d Hk.
+  destruct (is_finite d) eqn:Hf; [destruct (Z.eq_dec (wrap_int k (trunc_dec d)) (trunc_dec d)) as [Hw|Hw]|].
+  - rewrite (num_to_int_truncates k d Hk Hf Hw). split; [|split].
+    + split; [intros _; split; [reflexivity|exact Hw]|reflexivity].
+    + split; [discriminate|]. intros [H|H]; [discriminate H|contradiction].
+    + left. reflexivity.
+  - rewrite (num_out_of_range_is_error k d (or_intror Hw)). split; [|split].
+    + split; [discriminate|]. intros [_ H]. contradiction.
+    + split; [intros _; right; exact Hw|reflexivity].
+    + right. reflexivity.
+  - rewrite (num_out_of_range_is_error k d (or_introl Hf)). split; [|split].
+    + split; [discriminate|]. intros [H _]. discriminate H.
+    + split; [intros _; left; reflexivity|reflexivity].
+    + right. reflexivity.
 Qed.
 
 (* when does an integer fit kind k (signed kinds)? *)
@@ -418,19 +451,28 @@ Proof. intros is32 d. reflexivity. Qed.
 
 (* --- anything to string --- *)
 
-Definition is_goint (v : value) : bool := match v with VGoInt _ _ => true | _ => false end.
-
-Lemma any_to_string_formats_partial : forall v s,
-  conv_to_string v = Some s -> is_goint v = false ->
+(* every value that convToString formats arrives as that text; null arrives as "" *)
+Lemma any_to_string_formats_gen : forall v s,
+  conv_to_string v = Some s ->
   conv_to TString v = Ok (VStr (if is_null v then [] else s)).
 Proof.
-  intros v s Hs Hg.
-  destruct v; cbn in Hs; try discriminate Hs; try discriminate Hg.
+  intros v s Hs.
+  destruct v; cbn in Hs; try discriminate Hs.
   - reflexivity.
   - injection Hs as Hs. subst s. reflexivity.
   - cbn [conv_to reflect_convert is_basic_number is_null]. cbn [conv_to_string].
     destruct (is_nan d); [discriminate Hs|]. injection Hs as Hs. subst s. reflexivity.
   - injection Hs as Hs. subst s. reflexivity.
+  - injection Hs as Hs. subst s. reflexivity.
+Qed.
+
+Lemma any_to_string_formats :
+  (forall v s, v <> VNull -> conv_to_string v = Some s -> conv_to TString v = Ok (VStr s)) /\
+  conv_to TString VNull = Ok (VStr []).
+Proof.
+  split; [|reflexivity].
+  intros v s Hn Hs. rewrite (any_to_string_formats_gen v s Hs).
+  destruct v; try reflexivity; try discriminate Hs. exfalso. apply Hn. reflexivity.
 Qed.
 
 Lemma string_to_string : forall s, conv_to TString (VStr s) = Ok (VStr s).
@@ -442,19 +484,14 @@ Proof. intros d H. cbn [conv_to reflect_convert is_basic_number is_null conv_to_
 Lemma null_to_string_is_empty : conv_to TString VNull = Ok (VStr []) /\ conv_to TString VNilPtr = Ok (VStr []).
 Proof. split; reflexivity. Qed.
 
-(* The requested law "conv_to TString v = Ok (VStr s) with s = conv_to_string v" is FALSE for
-   Go integers that formatInput leaves alone (int8, int16, uintN from the data map): reflect's
-   Convert(int -> string) yields the UTF-8 encoding of the code point, not the decimal text. *)
-Lemma any_to_string_formats_refuted :
-  exists v s s', conv_to_string v = Some s /\ is_null v = false /\
-                 conv_to TString v = Ok (VStr s') /\ s' <> s.
-Proof.
-  exists (VGoInt GInt8 65), (str "65"), (str "A").
-  split; [reflexivity|]. split; [reflexivity|]. split; [reflexivity|]. discriminate.
-Qed.
-
-Lemma goint_to_string_is_rune : forall k n, conv_to TString (VGoInt k n) = Ok (VStr (encode_rune n)).
+(* Go integers that formatInput leaves alone (int8, int16, uintN from the data map) are formatted as
+   their digits like every other value (not converted to the string of that code point) *)
+Lemma goint_to_string_is_digits : forall k n,
+  conv_to TString (VGoInt k n) = Ok (VStr (dec_to_string (dec_of_Z n))).
 Proof. reflexivity. Qed.
+
+Example ex_goint_to_string : conv_to TString (VGoInt GInt8 65) = Ok (VStr [54; 53]).
+Proof. vm_compute. reflexivity. Qed.
 
 (* --- null to interface --- *)
 Lemma null_to_interface_is_nil : conv_to TIface VNull = Ok VNull.
@@ -465,20 +502,18 @@ Proof. intros v. destruct v; reflexivity. Qed.
 
 (* --- arrays to slices, element-wise --- *)
 Lemma conv_slice_elems_forall2 : forall et l l',
-  conv_slice_elems et l = Ok l' ->
-  Forall2 (fun x x' => conv_to et x = Ok x' /\ x' <> VNull) l l'.
+  conv_slice_elems et l = Ok l' <->
+  Forall2 (fun x x' => conv_to et x = Ok x') l l'.
 Proof.
-  intros et l. induction l as [|x r IH]; intros l' H.
-  - cbn in H. injection H as H. subst l'. constructor.
-  - rewrite conv_slice_elems_cons in H.
-    destruct (conv_to et x) as [x'| | |] eqn:Ex; try discriminate H.
-    destruct (conv_slice_elems et r) as [r'| | |] eqn:Er.
-    + assert (Hx : x' <> VNull /\ l' = x' :: r').
-      { destruct x'; try discriminate H; injection H as H; subst l'; split; try reflexivity; discriminate. }
-      destruct Hx as [Hn Hl]. subst l'. constructor; [split; [exact Ex|exact Hn]|]. apply IH. reflexivity.
-    + destruct x'; discriminate H.
-    + destruct x'; discriminate H.
-    + destruct x'; discriminate H.
+  intros et l l'. split.
+  - revert l'. induction l as [|x r IH]; intros l' H.
+    + cbn in H. injection H as H. subst l'. constructor.
+    + rewrite conv_slice_elems_cons in H.
+      destruct (conv_to et x) as [x'| | |] eqn:Ex; try discriminate H.
+      destruct (conv_slice_elems et r) as [r'| | |] eqn:Er; try discriminate H.
+      injection H as H. subst l'. constructor; [exact Ex|]. apply IH. reflexivity.
+  - intros H. induction H as [|x x' r r' Hx _ IH]; [reflexivity|].
+    rewrite conv_slice_elems_cons, Hx, IH. reflexivity.
 Qed.
 
 Lemma array_to_slice_elementwise : forall t l l',
@@ -488,20 +523,70 @@ Proof.
   intros t l l' H. rewrite conv_to_slice in H.
   destruct (conv_slice_elems t l) as [r| | |] eqn:E; try discriminate H.
   injection H as H. subst r.
-  apply conv_slice_elems_forall2 in E.
-  induction E as [|x x' r r' [Hx _] _ IH]; constructor; assumption.
+  apply conv_slice_elems_forall2 in E. exact E.
 Qed.
 
 Lemma array_to_slice_elementwise_conv : forall t l l',
-  Forall2 (fun x x' => conv_to t x = Ok x' /\ x' <> VNull) l l' ->
+  Forall2 (fun x x' => conv_to t x = Ok x') l l' ->
   conv_to (TSlice t) (VArr l) = Ok (VArr l').
 Proof.
   intros t l l' H. rewrite conv_to_slice.
-  assert (E : conv_slice_elems t l = Ok l').
-  { induction H as [|x x' r r' [Hx Hn] _ IH]; [reflexivity|].
-    rewrite conv_slice_elems_cons, Hx, IH. destruct x'; try reflexivity. exfalso. apply Hn. reflexivity. }
-  rewrite E. reflexivity.
+  apply conv_slice_elems_forall2 in H. rewrite H. reflexivity.
 Qed.
+
+(* an element that converts to nil (null for an interface element type) is kept as nil *)
+Lemma null_element_kept : forall l1 l2 l1' l2',
+  conv_to (TSlice TIface) (VArr l1) = Ok (VArr l1') ->
+  conv_to (TSlice TIface) (VArr l2) = Ok (VArr l2') ->
+  conv_to (TSlice TIface) (VArr (l1 ++ VNull :: l2)) = Ok (VArr (l1' ++ VNull :: l2')).
+Proof.
+  intros l1 l2 l1' l2' H1 H2.
+  apply array_to_slice_elementwise in H1. apply array_to_slice_elementwise in H2.
+  apply array_to_slice_elementwise_conv. apply Forall2_app; [exact H1|].
+  constructor; [reflexivity|exact H2].
+Qed.
+
+Example ex_null_element_kept :
+  conv_to (TSlice TIface) (VArr [VStr [97]; VNull; VBool true]) = Ok (VArr [VStr [97]; VNull; VBool true]).
+Proof. vm_compute. reflexivity. Qed.
+
+(* --- maps to Go maps, entry by entry: every key is kept, also when its value converts to nil --- *)
+Lemma conv_map_elems_forall2 : forall et m m',
+  conv_map_elems et m = Ok m' <->
+  Forall2 (fun e e' => fst e' = fst e /\ conv_to et (snd e) = Ok (snd e')) m m'.
+Proof.
+  intros et m m'. split.
+  - revert m'. induction m as [|[k x] r IH]; intros m' H.
+    + cbn in H. injection H as H. subst m'. constructor.
+    + rewrite conv_map_elems_cons in H.
+      destruct (conv_to et x) as [x'| | |] eqn:Ex; try discriminate H.
+      destruct (conv_map_elems et r) as [r'| | |] eqn:Er; try discriminate H.
+      injection H as H. subst m'. constructor; [split; [reflexivity|exact Ex]|]. apply IH. reflexivity.
+  - intros H. induction H as [|[k x] [k' x'] r r' [Hk Hx] _ IH]; [reflexivity|].
+    cbn [fst snd] in Hk, Hx. subst k'.
+    rewrite conv_map_elems_cons, Hx, IH. reflexivity.
+Qed.
+
+Lemma map_to_map_entrywise : forall t m m',
+  conv_to (TMapStr t) (VMap m) = Ok (VMap m') <->
+  Forall2 (fun e e' => fst e' = fst e /\ conv_to t (snd e) = Ok (snd e')) m m'.
+Proof.
+  intros t m m'. rewrite conv_to_map, <- conv_map_elems_forall2.
+  destruct (conv_map_elems t m) as [r| | |]; split; intros H; try discriminate H.
+  - injection H as H. subst r. reflexivity.
+  - injection H as H. subst r. reflexivity.
+Qed.
+
+Lemma map_keys_kept : forall t m m',
+  conv_to (TMapStr t) (VMap m) = Ok (VMap m') -> map fst m' = map fst m.
+Proof.
+  intros t m m' H. apply map_to_map_entrywise in H.
+  induction H as [|e e' r r' [Hk _] _ IH]; [reflexivity|]. cbn [map]. rewrite Hk, IH. reflexivity.
+Qed.
+
+Example ex_null_entry_kept :
+  conv_to (TMapStr TIface) (VMap [([97], VNull); ([98], VBool true)]) = Ok (VMap [([97], VNull); ([98], VBool true)]).
+Proof. vm_compute. reflexivity. Qed.
 
 Lemma slice_result_is_array : forall t v w, conv_to (TSlice t) v = Ok w -> exists l l', v = VArr l /\ w = VArr l'.
 Proof.
@@ -609,6 +694,52 @@ Proof.
     + cbn in Hi. injection Hi as Hi. subst x. exists t, a'. split; [exact Ht0|]. split; [reflexivity|exact Ha].
     + cbn in Hi. destruct (Hpt j x Hi) as (t' & c & Ht' & Hc & Hcv).
       exists t', c. split; [rewrite HtS; exact Ht'|]. split; [exact Hc|exact Hcv].
+Qed.
+
+(* one step of conv_args on a non-empty parameter list: the head argument meets the type of
+   position 0, the rest meets the positions shifted by one - or no position has a type at all
+   (a "variadic" signature whose last parameter is not a slice) *)
+Lemma conv_args_step : forall p ps variadic a rest,
+  (exists t ps', arg_type (p :: ps) variadic 0 = Some t /\
+     (forall j, arg_type (p :: ps) variadic (S j) = arg_type ps' variadic j) /\
+     conv_args (p :: ps) variadic (a :: rest) =
+     obind (conv_to t a) (fun a' => obind (conv_args ps' variadic rest) (fun r => Ok (a' :: r)))) \/
+  (forall i, arg_type (p :: ps) variadic i = None).
+Proof.
+  intros p ps variadic a rest. destruct ps as [|p' ps'].
+  - destruct variadic.
+    + destruct p; try (right; intros i; reflexivity).
+      left. exists p, [TSlice p]. split; [reflexivity|]. split; [intros j; reflexivity|reflexivity].
+    + left. exists p, []. split; [reflexivity|]. split; [intros j; reflexivity|reflexivity].
+  - left. exists p, (p' :: ps'). split; [reflexivity|]. split; [intros j; reflexivity|reflexivity].
+Qed.
+
+(* the first argument that cannot be converted decides: if position i yields Err and every earlier
+   position converts, the whole list yields Err *)
+Lemma conv_args_err_at : forall params variadic args i a t,
+  nth_error args i = Some a -> arg_type params variadic i = Some t -> conv_to t a = Err ->
+  (forall j b, (j < i)%nat -> nth_error args j = Some b ->
+     exists tj c, arg_type params variadic j = Some tj /\ conv_to tj b = Ok c) ->
+  conv_args params variadic args = Err.
+Proof.
+  intros params variadic args. revert params.
+  induction args as [|a0 rest IH]; intros params i a t Hi Ht Hc Hbefore.
+  - destruct i; discriminate Hi.
+  - destruct params as [|p ps]; [reflexivity|].
+    destruct (conv_args_step p ps variadic a0 rest) as [(t0 & ps' & Ht0 & HtS & Heq)|Hnone];
+      [|rewrite Hnone in Ht; discriminate Ht].
+    rewrite Heq. destruct i as [|i'].
+    + cbn in Hi. injection Hi as Hi. subst a0. rewrite Ht0 in Ht. injection Ht as Ht. subst t0.
+      rewrite Hc. reflexivity.
+    + destruct (Hbefore O a0 (Nat.lt_0_succ i') eq_refl) as (tj & c & Htj & Hcj).
+      rewrite Ht0 in Htj. injection Htj as Htj. subst tj. rewrite Hcj. cbn [obind].
+      rewrite (IH ps' i' a t).
+      * reflexivity.
+      * exact Hi.
+      * rewrite <- HtS. exact Ht.
+      * exact Hc.
+      * intros j b Hj Hb. destruct (Hbefore (S j) b) as (tj & c' & Htj & Hcj'); [lia|exact Hb|].
+        exists tj, c'. split; [rewrite <- HtS; exact Htj|exact Hcj'].
 Qed.
 
 (* ================================================================== *)
@@ -822,6 +953,37 @@ Proof.
     destruct o as [c| | |]; [exfalso; apply (Hno c); reflexivity| | |]; split; auto.
 Qed.
 
+(* an argument that cannot be converted (the arguments before it converting): the function is not
+   called, the state is unchanged, the outcome is Err *)
+Lemma unconvertible_argument_not_called : forall hosts off f sg args spread st i a t,
+  callee_sig hosts f = Some sg ->
+  nth_error (expanded_args args spread) i = Some a ->
+  arg_type (sig_params sg) (sig_variadic sg) i = Some t -> conv_to t a = Err ->
+  (forall j b, (j < i)%nat -> nth_error (expanded_args args spread) j = Some b ->
+     exists tj c, arg_type (sig_params sg) (sig_variadic sg) j = Some tj /\ conv_to tj b = Ok c) ->
+  call_value hosts off f args spread st = (Err, st).
+Proof.
+  intros hosts off f sg args spread st i a t Hsg Hi Ht Hc Hb.
+  rewrite (call_value_eq hosts off f args spread st sg Hsg).
+  rewrite (conv_args_err_at _ _ _ i a t Hi Ht Hc Hb).
+  destruct (arity_ok sg (length args) spread && spread_ok sg args spread); reflexivity.
+Qed.
+
+(* in particular NaN, an infinity or a number beyond the range of the integer parameter it is given to *)
+Lemma num_out_of_range_not_called : forall hosts off f sg args spread st i k d,
+  callee_sig hosts f = Some sg ->
+  nth_error (expanded_args args spread) i = Some (VNum d) ->
+  arg_type (sig_params sg) (sig_variadic sg) i = Some (TInt k) ->
+  is_finite d = false \/ wrap_int k (trunc_dec d) <> trunc_dec d ->
+  (forall j b, (j < i)%nat -> nth_error (expanded_args args spread) j = Some b ->
+     exists tj c, arg_type (sig_params sg) (sig_variadic sg) j = Some tj /\ conv_to tj b = Ok c) ->
+  call_value hosts off f args spread st = (Err, st).
+Proof.
+  intros hosts off f sg args spread st i k d Hsg Hi Ht Hr Hb.
+  exact (unconvertible_argument_not_called hosts off f sg args spread st i (VNum d) (TInt k) Hsg Hi Ht
+           (num_out_of_range_is_error k d Hr) Hb).
+Qed.
+
 (* --- C11.2: outcome of an actual call --- *)
 Lemma call_outcome : forall hosts off id h args spread st cargs,
   host_lookup id hosts = Some h ->
@@ -1032,6 +1194,13 @@ Proof. repeat split; vm_compute; reflexivity. Qed.
 Example ex_unconvertible :
   conv_to (TInt GInt) (VStr (str "1")) = Err /\ conv_to TDec (VBool true) = Err /\
   conv_args [TString; TInt GInt] false [VStr (str "a"); VStr (str "1")] = Err.
+Proof. repeat split; vm_compute; reflexivity. Qed.
+
+(* cat("x", 1e30) and cat("x", 1, 0/0): a number beyond int, NaN - Err, not called *)
+Example ex_call_num_out_of_range :
+  eval ex_hosts 0 (SCall (id_ "cat") [str_ "x"; num_ "1e30"] false) ex_st = (Err, ex_st) /\
+  eval ex_hosts 0 (SCall (id_ "cat") [str_ "x"; num_ "1"; SBin (num_ "0") KSlash (num_ "0")] false) ex_st = (Err, ex_st) /\
+  conv_to (TInt GInt8) (VNum (Fin false 128 0)) = Err /\ conv_to (TInt GInt64) (VNum NaN) = Err.
 Proof. repeat split; vm_compute; reflexivity. Qed.
 
 Example ex_array_to_slice :
